@@ -239,6 +239,11 @@ class ExplorerScriptSsbCompiler:
         if not routine_op_offsets_are_ordered(compiler_visitor.routine_ops):
             raise SsbCompilerError(_("Routines must be defined in ascending order of their ids."))
 
+        if None in compiler_visitor.routine_infos:
+            # (An id that is skipped leaves an entry without routine info in the tables; nothing can be done with that.)
+            missing = compiler_visitor.routine_infos.index(None)  # type: ignore
+            raise SsbCompilerError(f(_("Routine ids must be consecutive, there is no routine with the id {missing}.")))
+
         # Copy from listener / remove labels and label jumps
         label_finalizer = LabelFinalizer(strip_last_label(compiler_visitor.routine_ops))
 
